@@ -594,3 +594,15 @@ def mc(ctx):
 
 
 RULES.append(mc)
+
+
+@rule("O10", doc="the consequence clause: every slot the library invents (class parameters, names for redundant / uncovered slots, the slots a multi-pattern root is bound over) comes from Slot::fresh() — C03.H5 / H10, C11.N3, C05.V12")
+def o10(ctx):
+    from . import c03, c05, c11
+    c03.h5(ctx)
+    c03.h10(ctx)
+    c11.n3(ctx)
+    c05.v12(ctx)
+
+
+RULES.append(o10)
